@@ -295,6 +295,9 @@ def rule_r3(chk, m):
                     for p in ("start", "middle", "end"):
                         fine = seg[tgt_c][tables[src_c][p][K][0]]
                         for q2 in ("start", "middle", "end"):
+                            if fine not in tables[tgt_c][q2]:
+                                bad.append(("segment outside the table", tgt_c, fine))
+                                continue
                             back = seg[src_c][tables[tgt_c][q2][fine][0]]
                             n_cases += 1
                             if back != K:
